@@ -97,8 +97,23 @@ def check_linear(run, a, b, m):
             if clause.endswith(".rounding"):
                 run.tolerated(clause)
             else:
-                run.violation(clause, inp, o)
+                run.violation(clause, inp, o, known=d17_region(clause, lo, hi, lo2, hi2, m, cands))
     return (a2, b2) != (a, b)
+
+
+def d17_region(clause, lo, hi, lo2, hi2, m, cands):
+    """Known finding D17: nice() rounds to the tick step S0 of the ORIGINAL domain (as d3 does).  When the widened domain's
+    own step is 4 * S0 (S0 = 5*10^k -> 2*10^(k+1), small counts) an end that is an odd multiple of S0 is not a multiple of a
+    tenth of the new step.  Only this region is excused: the clause is `round`, both ends ARE multiples of an original-domain
+    step S0, and every step of the resulting domain is 4 * S0."""
+    if clause != "C14.linear.round":
+        return None
+    for st0 in c13.rule_steps(lo, hi, m):
+        S0 = c13.step_value(st0)
+        on_grid = all(abs(Fr(v) - round(Fr(v) / S0) * S0) <= Fr(1, 10 ** 9) * max(abs(Fr(v)), S0) for v in (lo2, hi2))
+        if on_grid and all(c13.step_value(st) == 4 * S0 for st in cands):
+            return "D17"
+    return None
 
 
 def one_linear(run, a, b, m):
